@@ -269,9 +269,9 @@ Definition fl_resp (p : N) (rf : rfeat) (lf : lfeat) (d : dgram) (c : cls) (pl :
   match c with
   | CRead => if negb (eqb_role (lf_role lf) RClient) && fn_registered (lf_type lf) (pl_fn pl)
              then [send_reply p d local_dev (pl_fn pl) (data_of lf (pl_fn pl))] else []
-  | CWrite => if fn_registered (lf_type lf) (pl_fn pl)
-              then (if d_ack d then [send_result p d local_dev 0] else [])
-              else [send_result p d local_dev E_GENERAL]
+  | CWrite => if write_refused lf d (pl_fn pl)
+              then [send_result p d local_dev E_GENERAL]
+              else (if d_ack d then [send_result p d local_dev 0] else [])
   | _ => []
   end.
 
@@ -299,7 +299,7 @@ Proof.
     pose proof (rsp_response_cbs s lf r p en rf (pl_val pl)) as H.
     destruct (process_response_cbs s lf r _) as [s1 o1]. cbn [snd fst] in *. split; [exact H | reflexivity].
   - destruct (fn_registered (rf_type rf) (pl_fn pl)); destruct (partial_payload pl); cbn [negb orb andb]; split; reflexivity.
-  - unfold process_write. destruct (fn_registered (lf_type lf) (pl_fn pl)); cbn [negb snd fst]; [|split; reflexivity].
+  - unfold process_write. destruct (write_refused lf d (pl_fn pl)); cbn [snd fst]; [split; reflexivity|].
     destruct (d_ack d); split; reflexivity.
   - split; reflexivity.
 Qed.
@@ -411,7 +411,14 @@ Lemma Forall_sent_fl p rf lf d c pl : Forall (sent p d) (fl_resp p rf lf d c pl)
 Proof.
   unfold fl_resp. destruct c; try constructor.
   - destruct (_ && _); fs.
-  - destruct (fn_registered _ _); [destruct (d_ack d)|]; fs.
+  - destruct (write_refused _ _ _); [|destruct (d_ack d)]; fs.
+Qed.
+
+Lemma nm_handle_bcmd b s pe en rf lf d c pl :
+  d_body d = BCmd c pl -> (forall e, pl <> PResult e) ->
+  nm_handle b s pe en rf lf d = nm_reply_callbacks b (p_ski pe) en rf lf d c pl (nm_dispatch s pe lf d c pl).
+Proof.
+  intros Hb Hn. unfold nm_handle. rewrite Hb. destruct pl; try reflexivity. exfalso. exact (Hn err eq_refl).
 Qed.
 
 Lemma Forall_sent_nm s p lf d c pl : Forall (sent p d) (nm_resp s p lf d c pl).
@@ -430,10 +437,11 @@ Proof.
   intros Hnm Hp Hwf Hsrc. unfold process_cmd. rewrite Hsrc. cbn [repaired v_result_guard v_local_source v_nm_reply_cbs andb].
   unfold prescribed.
   destruct (local_feature s (d_dst d)) as [lf|] eqn:Hl.
-  2:{ destruct (d_body d) as [e|c pl]; cbn [is_result_body snd].
+  2:{ destruct (d_body d) as [e|pl0|c pl]; cbn [is_result_body snd].
+      - exists []. repeat split; try constructor.
       - exists []. repeat split; try constructor.
       - eexists. split; [reflexivity|]. split; [fs|]. split; [reflexivity | discriminate]. }
-  destruct (d_body d) as [e|c pl] eqn:Hb.
+  destruct (d_body d) as [e|pl0|c pl] eqn:Hb.
   - (* result *)
     cbn [negb is_result_body ack_body]. rewrite andb_false_r.
     assert (H : forall h : hres, rsp (snd (fst h)) = [] -> snd h = None ->
@@ -446,8 +454,15 @@ Proof.
     + unfold nm_handle. rewrite Hb. apply process_result_resp.
     + unfold fl_handle. rewrite Hb. apply process_result_resp.
     + unfold fl_handle. rewrite Hb. apply process_result_resp.
+  - (* a result whose cmd is not a resultData element: rejected by every handler, and never answered *)
+    cbn [negb is_result_body ack_body]. exists []. split; [|repeat split; constructor].
+    destruct (is_nm lf).
+    + unfold nm_handle. rewrite Hb. reflexivity.
+    + unfold fl_handle. rewrite Hb. reflexivity.
   - (* the five other classifiers *)
     cbn [is_result_body].
+    assert (Hnr : forall e, pl <> PResult e).
+    { intros e ->. unfold wf_dgram in Hwf. rewrite Hb in Hwf. discriminate Hwf. }
     assert (Hfin : forall h : hres,
               rsp (snd (let '(s1, out, err) := h in
                         match err with
@@ -465,7 +480,7 @@ Proof.
       destruct gate eqn:Hg; cbn [negb].
       2:{ destruct c; try discriminate Hg. eexists. split; [reflexivity|]. split; [fs|].
           split; [|discriminate]. destruct pl; reflexivity. }
-      rewrite Hfin. unfold nm_handle. rewrite Hb.
+      rewrite Hfin. rewrite (nm_handle_bcmd true s pe en rf lf d c pl Hb Hnr).
       destruct (nm_reply_callbacks_spec true (p_ski pe) en rf lf d c pl (nm_dispatch s pe lf d c pl)) as [R1 R2].
       destruct (nm_dispatch_spec s pe lf d c pl Hp) as [D1 D2].
       rewrite R1, R2, D1, D2.
@@ -473,7 +488,7 @@ Proof.
       split; [|discriminate].
       unfold rmap, tail_of, nm_resp, nm_noerr, nm_errno. rewrite Hb.
       unfold wf_dgram in Hwf. rewrite Hb in Hwf.
-      destruct pl; destruct c; cbn [pl_fn ack_body andb];
+      destruct pl; try discriminate Hwf; destruct c; cbn [pl_fn ack_body andb data_model_takes];
         try rewrite (nm_not_data _ Hwf);
         rewrite ?andb_true_r, ?andb_false_r; cbn;
         repeat match goal with
@@ -489,20 +504,23 @@ Proof.
                 | CRead => match (if negb (eqb_role (lf_role lf) RClient) && fn_registered (lf_type lf) (pl_fn pl)
                                   then Some (pl_fn pl, data_of lf (pl_fn pl)) else None) with
                            | Some (fn, v) => [RReply fn v] | None => [RErr] end
-                | CWrite => (if b && fn_registered (lf_type lf) (pl_fn pl) then if d_ack d then [ROk] else [] else [RErr])
+                | CWrite => (if b && fn_registered (lf_type lf) (pl_fn pl) && (N.eqb (d_sel d) 0 || fn_partial (pl_fn pl))
+                             then if d_ack d then [ROk] else [] else [RErr])
                 | CCall => [RErr]
                 | CReply => (if fn_registered (rf_type rf) (pl_fn pl) then if d_ack d then [ROk] else [] else [RErr])
                 | CNotify => (if fn_registered (rf_type rf) (pl_fn pl) && negb (partial_payload pl) then if d_ack d then [ROk] else [] else [RErr])
                 end).
-      { intros b ->. unfold rmap, tail_of, fl_resp, fl_err. rewrite Hb.
+      { intros b ->. unfold rmap, tail_of, fl_resp, fl_err, write_refused. rewrite Hb.
         destruct c; cbn [ack_body andb]; rewrite ?andb_true_r, ?andb_false_r;
+          try (destruct (fn_registered (lf_type lf) (pl_fn pl)); destruct (N.eqb (d_sel d) 0);
+               destruct (fn_partial (pl_fn pl)); cbn [negb andb orb]);
           repeat match goal with
                  | |- context [if ?b then _ else _] => destruct b eqn:?
                  end; try reflexivity; try discriminate. }
-      destruct c; cbn [negb].
+      destruct c; cbn [negb data_model_takes].
       1,2,3,5: rewrite Hfin, F1, F2; eexists; (split; [reflexivity|]); (split;
                 [apply Forall_app; split; [apply Forall_sent_fl | apply Forall_sent_tail]|]); (split; [|discriminate]);
-               rewrite (Hdone true eq_refl); reflexivity.
+               rewrite (Hdone true eq_refl); rewrite ?andb_true_r; reflexivity.
       rewrite write_gate_spec.
       destruct (writable lf (pl_fn pl) && bound s lf (rf_addr en rf)) eqn:Hg; cbn [negb].
       * rewrite Hfin, F1, F2. eexists. split; [reflexivity|]. split;
@@ -611,14 +629,14 @@ Qed.
 
 Lemma sig_fl_handle s p en rf lf d : sig (fst (fst (fl_handle s p en rf lf d))) = sig s.
 Proof.
-  unfold fl_handle. destruct (d_body d) as [e|c pl]; [apply sig_process_result|].
+  unfold fl_handle. destruct (d_body d) as [e|pl0|c pl]; [apply sig_process_result|reflexivity|].
   destruct c.
   - destruct (eqb_role _ _); [reflexivity|]. destruct (negb _); reflexivity.
   - destruct (negb _); [reflexivity|]. destruct (d_ref d) as [r|]; [|reflexivity].
     pose proof (sig_response_cbs s lf r (mk_invoke lf r p en rf (pl_val pl))) as H.
     destruct (process_response_cbs s lf r _) as [s1 o1]. exact H.
   - destruct (negb _ || _); reflexivity.
-  - unfold process_write. destruct (negb _); [reflexivity|]. cbn [fst]. apply sig_upd_lfeat. intros x. reflexivity.
+  - unfold process_write. destruct (write_refused _ _ _); [reflexivity|]. cbn [fst]. apply sig_upd_lfeat. intros x. reflexivity.
   - reflexivity.
 Qed.
 
@@ -649,8 +667,8 @@ Qed.
 
 Lemma sig_nm_handle b s pe en rf lf d : sig (fst (fst (nm_handle b s pe en rf lf d))) = sig s.
 Proof.
-  unfold nm_handle. destruct (d_body d) as [e|c pl]; [apply sig_process_result|].
-  rewrite sig_nm_reply_callbacks. apply sig_nm_dispatch.
+  unfold nm_handle. destruct (d_body d) as [e|pl0|c pl]; [apply sig_process_result|reflexivity|].
+  destruct pl; try (rewrite sig_nm_reply_callbacks; apply sig_nm_dispatch). apply sig_process_result.
 Qed.
 
 Lemma sig_process_cmd v s pe d : sig (fst (process_cmd v s pe d)) = sig s.
